@@ -227,13 +227,14 @@ template <class R> static std::string run_ring(const std::string& op, const std:
 #include <unistd.h>
 static void on_prof(int) { std::cout.flush(); const char m[] = "HANG\n"; ssize_t w = write(1, m, sizeof m - 1); (void)w; _exit(75); }
 static void on_fatal(int sig) { std::cout.flush(); _exit(100 + sig); }
+static void on_term(int) { std::cout.flush(); _exit(76); }      // the check stops this stream (cap on hangs reached elsewhere): keep the answers so far
 static void arm(long sec) { struct itimerval t; t.it_interval.tv_sec = 0; t.it_interval.tv_usec = 0; t.it_value.tv_sec = sec; t.it_value.tv_usec = 0;
     setitimer(ITIMER_PROF, &t, 0); }
 
 int main(int argc, char** argv) {
     std::ios::sync_with_stdio(false);
     long budget = (argc > 1) ? atol(argv[1]) : 20; if (budget <= 0) budget = 20;
-    signal(SIGPROF, on_prof);
+    signal(SIGPROF, on_prof); signal(SIGTERM, on_term);
     signal(SIGSEGV, on_fatal); signal(SIGFPE, on_fatal); signal(SIGBUS, on_fatal); signal(SIGILL, on_fatal); signal(SIGABRT, on_fatal);
     std::string line;
     mpz_t p, x; mpz_init(p); mpz_init(x); mpz_init(g_p2);
